@@ -250,7 +250,8 @@ impl<'a, T> Index<usize> for Col<'a, T> {
     /// assert_eq!(col[3], 0);
     /// ```
     fn index(&self, idx: usize) -> &Self::Output {
-        let pos = idx * (1 + self.skip);
+        // an overflowing product is out of bounds too, so let the slice index report it
+        let pos = idx.checked_mul(1 + self.skip).unwrap_or(usize::MAX);
         &self.v[pos]
     }
 }
@@ -362,7 +363,8 @@ impl<'a, T> Index<usize> for ColMut<'a, T> {
     /// assert_eq!(col[3], 0);
     /// ```
     fn index(&self, idx: usize) -> &Self::Output {
-        let pos = idx * (1 + self.skip);
+        // an overflowing product is out of bounds too, so let the slice index report it
+        let pos = idx.checked_mul(1 + self.skip).unwrap_or(usize::MAX);
         &self.v[pos]
     }
 }
@@ -378,7 +380,8 @@ impl<'a, T> IndexMut<usize> for ColMut<'a, T> {
     /// col[3] = 42;
     /// ```
     fn index_mut(&mut self, idx: usize) -> &mut Self::Output {
-        let pos = idx * (1 + self.skip);
+        // an overflowing product is out of bounds too, so let the slice index report it
+        let pos = idx.checked_mul(1 + self.skip).unwrap_or(usize::MAX);
         &mut self.v[pos]
     }
 }
